@@ -130,10 +130,6 @@ Done == mode = "stopped" /\ UNCHANGED vars
 NoDuplicateLeaf        == \A q \in prog : evals[q] <= 1
 AllLeavesVisitedAtStop == mode = "stopped" => AllVisited
 NoTrialAfterExhaustion == running => ~AllVisited
-RECURSIVE SumEvals(_)
-SumEvals(S) == IF S = {} THEN 0 ELSE LET q == CHOOSE x \in S : TRUE IN evals[q] + SumEvals(S \ {q})
-NTrials                == SumEvals(prog) + aborts + (IF running THEN 1 ELSE 0)     \* trials started so far
-TrialsBounded          == NTrials <= Cardinality(prog) + aborts
 Stopped                == mode = "stopped"
 
 \* ------------------------------------------------------------------ the design of the code (algorithm level)
